@@ -20,4 +20,5 @@ d,det=sys.argv[1],sys.argv[2].split()
 m=json.load(open(d+'/meta.json')); m['detected_by']=sorted(set((m.get('detected_by') or [])+det)); json.dump(m,open(d+'/meta.json','w'),indent=1)
 PY
 done
+(cd /verif/harness && CARGO_NET_OFFLINE=true cargo build -q --release 2>/dev/null; CARGO_NET_OFFLINE=true cargo build -q --profile relassert 2>/dev/null)  # never leave a binary built from a changed tree behind
 git -C /repo status --short | head -3
